@@ -90,6 +90,37 @@ def render(dot_text):
     return p.returncode, err, p.stdout
 
 
+def drawn_elsewhere(text, cid, missing, nodes, members):
+    """Every missing (URL, fill) is a node that the DOT text declares inside the cluster whose URL is cid and that Graphviz lists in
+    another cluster."""
+    import re
+    blocks, cur, depth, url_of = {}, None, 0, {}
+    for line in text.splitlines():
+        m = re.match(r"\s*subgraph (cluster_\w+)", line)
+        if m:
+            cur, depth = m.group(1), 0
+            blocks[cur] = []
+        if cur is not None:
+            depth += line.count("{") - line.count("}")
+            blocks[cur].append(line)
+            mu = re.match(r'\s*URL="?\\?"?([^";\\]+)', line.strip())
+            if mu and cur not in url_of:
+                url_of[cur] = mu.group(1)
+            if depth <= 0 and "}" in line:
+                cur = None
+    mine = [b for b, u in url_of.items() if u == cid]
+    if not mine or not overlapping_clusters(text):
+        return False
+    body = "\n".join(blocks[mine[0]])
+    for url, fill in missing:
+        cands = [n for n in nodes if n.get("URL") == url and n.get("fillcolor") == fill]
+        if not cands:
+            return False
+        if not any(re.search(r"(?m)^\s*%s \[" % re.escape(n["name"]), body) and any(n["_gvid"] in m for c, m in members.items() if c != cid) for n in cands):
+            return False
+    return True
+
+
 def overlapping_clusters(text):
     """Does some node id occur (as a node statement or an edge end) inside two different cluster blocks of the DOT text?"""
     import re
@@ -224,7 +255,15 @@ def check_render(doc, opt, ctx):
         else:
             got = got & want if not (want - got) else got   # nodes of other containers pulled into this cluster by an edge are not this bundle's elements
         if (want - got) or (cid is None and (got - want)):
-            problems.append({"container": cid, "problem": "element nodes differ", "missing": list((want - got).elements())[:3],
+            missing = list((want - got).elements())
+            if cid is not None and not (cid is None and (got - want)) and missing and drawn_elsewhere(text, cid, missing, nodes, members):
+                # open finding KF-C15-1, second symptom: prov.dot wrote the node inside this bundle's cluster, another bundle's edge
+                # uses the same node, and Graphviz (a node cannot be in two clusters) shows it in the other one
+                from pv import findings
+                if "KF-C15-1" in findings.OPEN:
+                    ctx.known_finding("KF-C15-1", "an element of <%s> is shown inside another bundle's cluster (its node is used by both)" % cid, {"missing": missing[:2]})
+                    continue
+            problems.append({"container": cid, "problem": "element nodes differ", "missing": missing[:3],
                              "unexpected": list((got - want).elements())[:3] if cid is None else []})
         for e in cont["elements"]:
             cands = [n for n in nodes if (cid is None or n["_gvid"] in members.get(cid, ())) and n.get("URL") == e["uri"]
